@@ -75,6 +75,10 @@ impl BarState {
         // Always reset the estimator; this is the only reset that will occur if mode is
         // `Reset::Eta`.
         self.state.est.reset(now);
+        // Progress the estimator has not sampled yet (updates swallowed by the rate limiter,
+        // `with_position`) happened before the reset: it must not count towards the first
+        // sample taken after it.
+        self.state.est.prev_steps = self.state.pos.pos.load(Ordering::Relaxed);
 
         if let Reset::Elapsed | Reset::All = mode {
             self.state.started = now;
